@@ -21,6 +21,12 @@ fn check_bracket_closed(chars: impl Iterator<Item = char>) -> bool {
     count <= 0
 }
 
+/// verification hook: the REPL's submission test, exposed for exhaustive checking
+#[cfg(ruschm_verif)]
+pub fn verif_check_bracket_closed(source: &str) -> bool {
+    check_bracket_closed(source.chars())
+}
+
 pub fn run() {
     // currently rust is lack of higher kind type (HKT), so we need write f32 twice
     let it = Interpreter::<f32>::new_with_stdlib();
